@@ -772,7 +772,7 @@ def pur5(ctx, which=("fold", "order")):
     if not ok:
         r.report("PUR-5|parse_phrases|split", fn_loc(pp), pp.path, "words of a line are not obtained by `split(' ')`")
     ps = ctx.fn(lib, "asca::phrases_to_string")
-    lits = [n["lit"] for n in hirq.walk(ps.hir["body"]) if n["e"] == "lit" and n.get("lk") == "str" and not n.get("exp")]
+    lits = [n["lit"] for n in hirq.walk(ps.hir["body"]) if n["e"] == "lit" and n.get("lk") in ("str", "char") and not n.get("exp")]
     trims = [n for n in hirq.walk(ps.hir["body"]) if n["e"] == "mcall" and n["name"] in ("trim_end", "trim")]
     ok = lits == [" "] and len(trims) == 1
     r.inst("phrases_to_string joins the words of a line with single spaces (one separator literal, one trim)", fn_loc(ps), "ok" if ok else "report")
